@@ -10,7 +10,7 @@
 //	R1  for k, v := range <map>   -> iterate verifrt.Keys(<map>, site)
 //	R2  time.Now                  -> verifrt.Now
 //	R3  os.Exit                   -> verifrt.Exit
-//	R4  yield points before send/close/Lock/Wait/Done, after receive;
+//	R4  yield points before send/close/Lock/Wait/Done, after receive and after close;
 //	    `go f(args)` -> verifrt.Go(site, ...)
 //
 // usage: seamgen <repo> <outdir> <verifrt-src-dir>
@@ -250,7 +250,7 @@ func main() {
 				case *ast.DeferStmt:
 					if id, ok := x.Call.Fun.(*ast.Ident); ok && id.Name == "close" {
 						if _, isb := p.TypesInfo.Uses[id].(*types.Builtin); isb {
-							fe.repl(off(x.Call.Pos()), off(x.Call.End()), "func() { verifrt.Yield("+site("close", x.Pos())+"); "+text(x.Call)+" }()")
+							fe.repl(off(x.Call.Pos()), off(x.Call.End()), "func() { verifrt.Yield("+site("close", x.Pos())+"); "+text(x.Call)+"; verifrt.Yield("+site("closed", x.Pos())+") }()")
 							counts["close"]++
 						}
 					}
@@ -273,6 +273,9 @@ func main() {
 						if id, ok := call.Fun.(*ast.Ident); ok && id.Name == "close" {
 							if _, isb := p.TypesInfo.Uses[id].(*types.Builtin); isb {
 								yieldBefore("close", x)
+								// and after it: what the closing goroutine does next (set an error field, close a file) and what
+								// the receivers that see the close do are two orders the scheduler must be able to produce
+								after(x, "verifrt.Yield("+site("closed", x.Pos())+")")
 							}
 						}
 						switch syncCall(p, call) {
